@@ -56,7 +56,7 @@ def case_strategy(opts):
             cur = G.canon_key(G.dec(prog["vars"][vi]["val"]))
             case["edit"] = ["setvar", vi, G.enc(draw(st.sampled_from([v for v in G._var_pool(opts) if G.canon_key(v) != cur])))]
         elif step in ("edit", "revert"):
-            case["edit"] = draw(G.edits(prog, root, kinds=["setvar", "bump", "pad", "setlit", "bumpcls"], opts=opts))
+            case["edit"] = draw(G.edits(prog, root, kinds=["setvar", "bump", "pad", "setlit", "bumpcls", "indent"], opts=opts))
         elif step == "outside":
             case["edit"] = draw(G.edits(prog, root, kinds=["unrelated", "reorder", "ext_pad", "ext_val", "ext_ver"], opts=opts))
         elif step == "rename":
